@@ -57,6 +57,20 @@ func fullKey(t geom.T) string {
 	return sb.String()
 }
 
+// structKey is the structure of a geometry through the flat accessors (no capacity, no nil-versus-empty).
+func structKey(t geom.T) string {
+	var sb strings.Builder
+	fmt.Fprintf(&sb, "%T l=%d st=%d srid=%d f=", t, t.Layout(), t.Stride(), t.SRID())
+	for _, v := range t.FlatCoords() {
+		fmt.Fprintf(&sb, "%x,", math.Float64bits(v))
+	}
+	fmt.Fprintf(&sb, " e=%v ee=", t.Ends())
+	for _, row := range t.Endss() {
+		fmt.Fprintf(&sb, "%v", row)
+	}
+	return sb.String()
+}
+
 func withCap(fs []float64, extra int) []float64 {
 	out := make([]float64, len(fs), len(fs)+extra)
 	copy(out, fs)
@@ -180,53 +194,67 @@ func c16Ops() []c16Op {
 		}},
 		{"Push(part)", func(t, _ geom.T, _ func() string) string {
 			l := t.Layout()
+			n, m := 2, 1 // a geometry without a layout can only take parts without coordinates
+			if l == geom.NoLayout {
+				n, m = 0, 0
+			}
 			switch t := t.(type) {
 			case *geom.Polygon:
-				_ = t.Push(ref.NewLine(ref.LinearRing, l, 2, ref.CounterFrom(900)).MustBuild().(*geom.LinearRing))
+				_ = t.Push(ref.NewLine(ref.LinearRing, l, n, ref.CounterFrom(900)).MustBuild().(*geom.LinearRing))
 			case *geom.MultiPoint:
-				_ = t.Push(ref.NewPoint(l, true, ref.CounterFrom(900)).MustBuild().(*geom.Point))
+				_ = t.Push(ref.NewPoint(l, l != geom.NoLayout, ref.CounterFrom(900)).MustBuild().(*geom.Point))
 			case *geom.MultiLineString:
-				_ = t.Push(ref.NewLine(ref.LineString, l, 2, ref.CounterFrom(900)).MustBuild().(*geom.LineString))
+				_ = t.Push(ref.NewLine(ref.LineString, l, n, ref.CounterFrom(900)).MustBuild().(*geom.LineString))
 			case *geom.MultiPolygon:
-				_ = t.Push(ref.NewParts(ref.Polygon, l, []int{2, 1}, ref.CounterFrom(900)).MustBuild().(*geom.Polygon))
+				_ = t.Push(ref.NewParts(ref.Polygon, l, []int{n, m}, ref.CounterFrom(900)).MustBuild().(*geom.Polygon))
 			}
 			return ""
 		}},
 		{"Reverse", func(t, _ geom.T, _ func() string) string {
-			switch t := t.(type) {
-			case *geom.LineString:
-				t.Reverse()
-			case *geom.LinearRing:
-				t.Reverse()
-			case *geom.Polygon:
-				t.Reverse()
-			case *geom.MultiPoint:
-				t.Reverse()
-			case *geom.MultiLineString:
-				t.Reverse()
-			case *geom.MultiPolygon:
-				t.Reverse()
+			rev := func() {
+				switch t := t.(type) {
+				case *geom.LineString:
+					t.Reverse()
+				case *geom.LinearRing:
+					t.Reverse()
+				case *geom.Polygon:
+					t.Reverse()
+				case *geom.MultiPoint:
+					t.Reverse()
+				case *geom.MultiLineString:
+					t.Reverse()
+				case *geom.MultiPolygon:
+					t.Reverse()
+				}
 			}
+			if t.Stride() == 0 {
+				return reverseReturns(rev)
+			}
+			rev()
 			return ""
 		}},
 		{"SetCoords(new)", func(t, _ geom.T, _ func() string) string {
 			l := t.Layout()
 			f := ref.CounterFrom(500)
+			n := 2 // a geometry without a layout can only take coordinate lists without coordinates
+			if l == geom.NoLayout {
+				n = 0
+			}
 			switch t := t.(type) {
 			case *geom.Point:
-				t.MustSetCoords(ref.NewPoint(l, true, f).C0.Floats())
+				t.MustSetCoords(ref.NewPoint(l, l != geom.NoLayout, f).C0.Floats())
 			case *geom.LineString:
-				t.MustSetCoords(coordsOf1(ref.NewLine(ref.LineString, l, 2, f).C1))
+				t.MustSetCoords(coordsOf1(ref.NewLine(ref.LineString, l, n, f).C1))
 			case *geom.LinearRing:
-				t.MustSetCoords(coordsOf1(ref.NewLine(ref.LinearRing, l, 2, f).C1))
+				t.MustSetCoords(coordsOf1(ref.NewLine(ref.LinearRing, l, n, f).C1))
 			case *geom.Polygon:
-				t.MustSetCoords([][]geom.Coord{coordsOf1(ref.NewLine(ref.LinearRing, l, 2, f).C1)})
+				t.MustSetCoords([][]geom.Coord{coordsOf1(ref.NewLine(ref.LinearRing, l, n, f).C1)})
 			case *geom.MultiPoint:
-				t.MustSetCoords(coordsOf1(ref.NewLine(ref.LineString, l, 2, f).C1))
+				t.MustSetCoords(coordsOf1(ref.NewLine(ref.LineString, l, n, f).C1))
 			case *geom.MultiLineString:
-				t.MustSetCoords([][]geom.Coord{coordsOf1(ref.NewLine(ref.LineString, l, 2, f).C1)})
+				t.MustSetCoords([][]geom.Coord{coordsOf1(ref.NewLine(ref.LineString, l, n, f).C1)})
 			case *geom.MultiPolygon:
-				t.MustSetCoords([][][]geom.Coord{{coordsOf1(ref.NewLine(ref.LinearRing, l, 2, f).C1)}})
+				t.MustSetCoords([][][]geom.Coord{{coordsOf1(ref.NewLine(ref.LinearRing, l, n, f).C1)}})
 			}
 			return ""
 		}},
@@ -289,6 +317,18 @@ func c16Exec(c *engine.Ctx, cs c16Case) {
 			}
 			if b.Layout() != a.Layout() || b.Stride() != a.Stride() || b.SRID() != a.SRID() {
 				fail("header", fmt.Sprintf("clone layout/stride/srid %v/%d/%d, original %v/%d/%d", b.Layout(), b.Stride(), b.SRID(), a.Layout(), a.Stride(), a.SRID()))
+				return
+			}
+			if a.Layout() == geom.NoLayout {
+				// nested coordinates are not read for a geometry without a layout (Coords() divides
+				// by the stride; DESIGN.md section 7, item 1): the structure is compared through the flat accessors
+				if structKey(a) != structKey(b) {
+					fail("unequal", fmt.Sprintf("clone differs from original: %s vs %s", structKey(b), structKey(a)))
+					return
+				}
+				if err := ref.WellFormed(b); err != nil {
+					fail("ill-formed", err.Error())
+				}
 				return
 			}
 			want, _ := ref.Observe(a)
@@ -474,6 +514,13 @@ func c16Run(c *engine.Ctx) {
 	for _, l := range ref.LayoutsAll {
 		ref.ForEachBase(l, 2, func(g *ref.G) { bases = append(bases, g) })
 	}
+	// NoLayout: its only well-formed geometries are the empty ones of every type (no coordinates,
+	// zero-length parts and members at any position)
+	ref.ForEachBase(geom.NoLayout, 2, func(g *ref.G) {
+		if g.NumOrdinates() == 0 {
+			bases = append(bases, g)
+		}
+	})
 	// larger structures (allocation strategies that only change beyond a few rows/parts)
 	for _, l := range []geom.Layout{geom.XY, geom.XYZM} {
 		for _, np := range []int{6, 9, 17, 33} {
